@@ -158,6 +158,44 @@ DecodeMsgPack(inp, lim, f) ==
    v |-> r.v, read |-> IF r.p - 1 > Len(inp) THEN Len(inp) ELSE r.p - 1, depth |-> r.d]
 
 (***************************************************************************)
+(* Header widths of a WELL-FORMED encoding: TRUE iff no string, array or   *)
+(* map header is wider than its length needs, i.e. the header changes      *)
+(* exactly at 31/32, 255/256, 65535/65536 (strings) and 15/16, 65535/65536 *)
+(* (arrays, maps).  The objects are walked as one flat sequence: a         *)
+(* container adds its children to the number of objects still to come.     *)
+(* Integer widths and bin/ext headers are not judged (C08 does not).       *)
+(***************************************************************************)
+RECURSIVE TightHeaders(_, _, _)
+TightHeaders(inp, p, todo) ==
+  IF todo = 0 \/ p > Len(inp) THEN TRUE
+  ELSE LET c == inp[p]
+           B1 == IF p + 1 <= Len(inp) THEN inp[p + 1] ELSE 0
+           B2 == IF p + 2 <= Len(inp) THEN BE(Bytes(inp, p + 1, 2)) ELSE 0
+           B4 == IF p + 4 <= Len(inp) THEN BE(Bytes(inp, p + 1, 4)) ELSE 0 IN
+    IF c <= 127 \/ c >= 224 \/ c \in {192, 193, 194, 195} THEN TightHeaders(inp, p + 1, todo - 1)
+    ELSE IF c >= 128 /\ c <= 143 THEN TightHeaders(inp, p + 1, todo - 1 + 2 * (c - 128))
+    ELSE IF c >= 144 /\ c <= 159 THEN TightHeaders(inp, p + 1, todo - 1 + (c - 144))
+    ELSE IF c >= 160 /\ c <= 191 THEN TightHeaders(inp, p + 1 + (c - 160), todo - 1)
+    ELSE IF c = 196 THEN TightHeaders(inp, p + 2 + B1, todo - 1)
+    ELSE IF c = 197 THEN TightHeaders(inp, p + 3 + B2, todo - 1)
+    ELSE IF c = 198 THEN TightHeaders(inp, p + 5 + B4, todo - 1)
+    ELSE IF c = 199 THEN TightHeaders(inp, p + 3 + B1, todo - 1)
+    ELSE IF c = 200 THEN TightHeaders(inp, p + 4 + B2, todo - 1)
+    ELSE IF c = 201 THEN TightHeaders(inp, p + 6 + B4, todo - 1)
+    ELSE IF c = 202 THEN TightHeaders(inp, p + 5, todo - 1)
+    ELSE IF c = 203 THEN TightHeaders(inp, p + 9, todo - 1)
+    ELSE IF c >= 204 /\ c <= 207 THEN TightHeaders(inp, p + 1 + (CASE c = 204 -> 1 [] c = 205 -> 2 [] c = 206 -> 4 [] c = 207 -> 8), todo - 1)
+    ELSE IF c >= 208 /\ c <= 211 THEN TightHeaders(inp, p + 1 + (CASE c = 208 -> 1 [] c = 209 -> 2 [] c = 210 -> 4 [] c = 211 -> 8), todo - 1)
+    ELSE IF c >= 212 /\ c <= 216 THEN TightHeaders(inp, p + 2 + (CASE c = 212 -> 1 [] c = 213 -> 2 [] c = 214 -> 4 [] c = 215 -> 8 [] c = 216 -> 16), todo - 1)
+    ELSE IF c = 217 THEN B1 >= 32 /\ TightHeaders(inp, p + 2 + B1, todo - 1)
+    ELSE IF c = 218 THEN B2 >= 256 /\ TightHeaders(inp, p + 3 + B2, todo - 1)
+    ELSE IF c = 219 THEN B4 >= 65536 /\ TightHeaders(inp, p + 5 + B4, todo - 1)
+    ELSE IF c = 220 THEN B2 >= 16 /\ TightHeaders(inp, p + 3, todo - 1 + B2)
+    ELSE IF c = 221 THEN B4 >= 65536 /\ TightHeaders(inp, p + 5, todo - 1 + B4)
+    ELSE IF c = 222 THEN B2 >= 16 /\ TightHeaders(inp, p + 3, todo - 1 + 2 * B2)
+    ELSE B4 >= 65536 /\ TightHeaders(inp, p + 5, todo - 1 + 2 * B4)      \* 223
+
+(***************************************************************************)
 (* the encoder's choice (MsgPackSerializer.hpp)                            *)
 (***************************************************************************)
 U16(n) == <<n \div 256, Mod(n, 256)>>
